@@ -1324,22 +1324,12 @@ mod expression_parser {
                 })
                 .collect_vec();
               let loc = peeked_loc.union(&right_parenthesis_loc);
-              return expr::E::Tuple(
-                expr::ExpressionCommon {
-                  loc,
-                  associated_comments: NO_COMMENT_REFERENCE,
-                  type_: (),
-                },
-                expr::ParenthesizedExpressionList {
-                  loc,
-                  start_associated_comments: parser
-                    .comments_store
-                    .create_comment_reference(associated_comments),
-                  ending_associated_comments: parser
-                    .comments_store
-                    .create_comment_reference(comments_before_rparen),
-                  expressions: tuple_elements,
-                },
+              return build_tuple(
+                parser,
+                loc,
+                associated_comments,
+                comments_before_rparen,
+                tuple_elements,
               );
             }
           }
@@ -1604,6 +1594,20 @@ mod expression_parser {
       }
       expressions.push(parse_expression_with_additional_preceding_comments(parser, comments));
     }
+    let (end_loc, end_comments) = parser.assert_and_consume_operator(TokenOp::RightParenthesis);
+    build_tuple(parser, start_loc.union(&end_loc), start_comments, end_comments, expressions)
+  }
+
+  /// A parenthesized, comma separated list that is not a lambda's parameter list.
+  /// Like `(e)`, a single element with a trailing comma `(e,)` is just `e`;
+  /// longer lists are tuples of at most `MAX_STRUCT_SIZE` elements.
+  fn build_tuple(
+    parser: &mut super::SourceParser,
+    loc: Location,
+    start_comments: Vec<Comment>,
+    end_comments: Vec<Comment>,
+    mut expressions: Vec<expr::E<()>>,
+  ) -> expr::E<()> {
     if let Some(node) = expressions.get(MAX_STRUCT_SIZE) {
       parser.error_set.report_invalid_syntax_error(
         node.loc(),
@@ -1611,9 +1615,9 @@ mod expression_parser {
       );
     }
     expressions.truncate(MAX_STRUCT_SIZE);
-    let (end_loc, end_comments) = parser.assert_and_consume_operator(TokenOp::RightParenthesis);
-    let loc = start_loc.union(&end_loc);
-    debug_assert!(expressions.len() > 1);
+    if expressions.len() == 1 {
+      return expressions.pop().unwrap();
+    }
     expr::E::Tuple(
       expr::ExpressionCommon { loc, associated_comments: NO_COMMENT_REFERENCE, type_: () },
       expr::ParenthesizedExpressionList {
